@@ -475,6 +475,7 @@ namespace GeographicLib {
         throw GeographicLib::GeographicErr("Bad value for cost");
       std::vector<Node> tree;
       tree.reserve(treesize);
+      std::vector<bool> used(treesize, false);
       for (int i = 0; i < treesize; ++i) {
         Node node;
         if (bin) {
@@ -513,6 +514,7 @@ namespace GeographicLib {
           }
         }
         node.Check(numpoints, treesize, bucket);
+        node.CheckChildren(i, used);
         tree.push_back(node);
       }
       _tree.swap(tree);
@@ -651,6 +653,19 @@ namespace GeographicLib {
         }
       }
 
+      // The children of node i must precede it and have no other parent (as
+      // in a tree built by Initialize); otherwise Search might not terminate.
+      void CheckChildren(int i, std::vector<bool>& used) const {
+        if (index < 0) return;
+        for (int l = 0; l < 2; ++l) {
+          int c = data.child[l];
+          if (c < 0) continue;
+          if (!( c < i && !used[c] ))
+            throw GeographicLib::GeographicErr("Bad child pointers");
+          used[c] = true;
+        }
+      }
+
 #if defined(GEOGRAPHICLIB_HAVE_BOOST_SERIALIZATION) && \
   GEOGRAPHICLIB_HAVE_BOOST_SERIALIZATION
       friend class boost::serialization::access;
@@ -715,8 +730,11 @@ namespace GeographicLib {
       if (!( 0 <= int(tree.size()) && int(tree.size()) <= numpoints ))
         throw
           GeographicLib::GeographicErr("Bad number of points or tree size");
-      for (int i = 0; i < int(tree.size()); ++i)
+      std::vector<bool> used(tree.size(), false);
+      for (int i = 0; i < int(tree.size()); ++i) {
         tree[i].Check(numpoints, int(tree.size()), bucket);
+        tree[i].CheckChildren(i, used);
+      }
       _tree.swap(tree);
       _numpoints = numpoints;
       _bucket = bucket;
